@@ -25,6 +25,7 @@ type Config struct {
 	NewestFirst   bool     // thread pick policy (second extraction)
 	Bridge        Bridge   // parser bridge (nil = unsupported)
 	SolverTimeout int      // ms
+	StepsAreHang  bool     // exhausting the step budget is a violation (C09) instead of inconclusive
 	Z3            string
 	Log           func(string)
 }
@@ -515,6 +516,10 @@ func (w *Worker) Explore(fn *ssa.Function) *Report {
 		rep.Steps += res.Steps
 		rep.Events += res.Events
 		rep.Unknowns += res.Unknowns
+		if res.End == "steps" && i.cfg.StepsAreHang {
+			res.End = "hang"
+			i.violate("hang", "the call does not return within the step budget", "hang", res.Msg, nil)
+		}
 		if res.End == "unsupported" || res.End == "steps" {
 			if !unsup[res.End+": "+res.Msg] {
 				unsup[res.End+": "+res.Msg] = true
